@@ -39,7 +39,10 @@ def typed(S):
          json.dumps(S.hgmd, sort_keys=True)])
 
 
-def gen_content(rng, kind):
+HUGE_TIMES = [2**53, 2**53 + 1, 2**53 + 2, 2**60, 2**60 + 1, 2**63, 2**63 + 1]
+
+
+def gen_content(rng, kind, huge_times=False):
     uni = rng.choice(list(UNIS))
     labels = rng.sample(UNIS[uni], rng.randint(3, 6))
     weighted = rng.random() < 0.6
@@ -60,6 +63,13 @@ def gen_content(rng, kind):
             k = (frozenset(ns[:cut]), frozenset(ns[cut:]))
         elif kind == "T":
             k = (rng.randint(0, 3), frozenset(ns))
+            if huge_times:
+                # time stamps that are different integers but the same float, the SAME node set at both of them
+                i_ = rng.randrange(len(HUGE_TIMES) - 1)
+                k = (HUGE_TIMES[i_], frozenset(ns))
+                k2 = (HUGE_TIMES[i_ + 1], frozenset(ns))
+                if k2 not in C.edges and rng.random() < 0.7:
+                    C.edges[k2] = [rng.choice([1, 2, 3]) if weighted and wtype == "int" else 1.5 if weighted else 1, copy.deepcopy(rng.choice(MDS))]
         else:
             k = (frozenset(ns), rng.choice(LAYERS))
         if k in C.edges:
@@ -265,11 +275,79 @@ def nodes_only_case(ctx, rng, idx):
     ctx.distinct_add(("nodes-only", kind, tuple(ints), repr(mds), weighted))
 
 
+def many_entries_case(ctx, rng, idx):
+    """130-600 nodes and hyperedges carrying metadata with NESTED mutable values.  Hashed, then one nested value is changed in
+    place (the metadata dictionaries are the client's own objects, the containers keep them by reference), hashed again: the
+    content differs, so must the hash - and it must be the hash of a freshly built object with the new content."""
+    from hypergraphx.readwrite.hashing import hash_hypergraph
+    from ..history import new_container
+
+    kind = "HDTM"[(idx // 8) % 4]
+    n = rng.choice([70, 140, 300])
+    weighted = rng.random() < 0.5
+    ctx.event(f"many-entries:{kind}")
+    labels = list(range(n))
+
+    def key_of(i):
+        ns = (i, (i + 1) % n, (i * 7 + 3) % n)
+        ns = tuple(sorted(set(ns)))
+        if kind == "D":
+            return ((ns[0],), tuple(ns[1:]))
+        return ns
+
+    def extra(i):
+        return {"H": (), "D": (), "T": (i % 5,), "M": ("L%d" % (i % 3),)}[kind]
+
+    def build(edit=None):
+        h = new_container(kind, weighted)
+        for i in labels:
+            md = {"tags": ["a", {"deep": [i]}], "i": i}
+            if edit == ("node", i):
+                md["tags"][1]["deep"].append("edited")
+            h.add_node(i, md)
+        for i in range(0, n, 2):
+            md = {"tags": ["e", [i]], "w": i}
+            if edit == ("edge", i):
+                md["tags"][1].append("edited")
+            kw = {"weight": 1 + i % 3} if weighted else {}
+            h.add_edge(key_of(i), *extra(i), metadata=md, **kw)
+        return h
+
+    def wit(x=None):
+        return {"kind": kind, "n": n, "weighted": weighted, "extra": x}
+
+    try:
+        h = build()
+        h0 = hash_hypergraph(h)
+        ctx.check("C07:equal-content-equal-hash", hash_hypergraph(build()) == h0, f"C07:{kind}:many-entries:same-content-different-hash", wit)
+        i_n = rng.randrange(n)
+        (h.get_node_metadata(i_n) if hasattr(h, "get_node_metadata") else h.get_nodes(metadata=True)[i_n])["tags"][1]["deep"].append("edited")
+        h1 = hash_hypergraph(h)
+        ctx.check("C07:edit-changes-hash", h1 != h0, f"C07:{kind}:many-entries:edit-kept-hash:nested-node-metadata-value-changed-in-place", lambda: wit(i_n))
+        ctx.check("C07:equal-content-equal-hash", h1 == hash_hypergraph(build(("node", i_n))), f"C07:{kind}:many-entries:same-content-different-hash(after in-place edit of a nested node metadata value)", lambda: wit(i_n))
+        i_e = 2 * rng.randrange(n // 2)
+        g = build()
+        hash_hypergraph(g)
+        g.get_edge_metadata(key_of(i_e), *extra(i_e))["tags"][1].append("edited")
+        h2 = hash_hypergraph(g)
+        ctx.check("C07:edit-changes-hash", h2 != h0, f"C07:{kind}:many-entries:edit-kept-hash:nested-hyperedge-metadata-value-changed-in-place", lambda: wit(i_e))
+        ctx.check("C07:equal-content-equal-hash", h2 == hash_hypergraph(build(("edge", i_e))), f"C07:{kind}:many-entries:same-content-different-hash(after in-place edit of a nested hyperedge metadata value)", lambda: wit(i_e))
+    except Exception as e:
+        ctx.check("C07:equal-content-equal-hash", False, f"C07:{kind}:many-entries:raised:{type(e).__name__}", lambda: wit(repr(e)))
+        return
+    ctx.distinct_add(("many-entries", kind, n, weighted))
+
+
 def run_case(ctx, rng, idx):
     if idx % 12 == 7:
         return nodes_only_case(ctx, rng, idx)
+    if idx % 24 == 11 or idx == 3:
+        return many_entries_case(ctx, rng, idx)
     kind = "HDTM"[idx % 4]
-    C, labels, uni = gen_content(rng, kind)
+    huge = kind == "T" and idx % 16 == 2
+    if huge:
+        ctx.event("content-with-time-stamps-beyond-2**53")
+    C, labels, uni = gen_content(rng, kind, huge_times=huge)
     if len(C.edges) < 1:
         return
     K = KEYS[kind]
